@@ -45,8 +45,12 @@ func (w *World) abstractInstant(u value) value {
 	return structure{uint64(0), u, (*value)(nil)}
 }
 
+// clockInputLabel marks the inputs created by time.Now: natively the clock is not read from the replay vector, so
+// these inputs are left out of vectors (makeVector, violationVector) to keep the vf* inputs aligned.
+const clockInputLabel = "time.Now()"
+
 func (w *World) abstractNow() value {
-	t := w.newInput("now", 64)
+	t := w.newInput(clockInputLabel, 64)
 	tt := w.tt
 	lo := tt.Const(1<<40, 64)
 	if w.clockLast != nil {
